@@ -8,7 +8,7 @@
 Only paths that can still reach an Ok exit are followed (DESIGN §4.2); a decision whose other branch cannot
 reach an Ok exit is recorded as a *guard*.
 """
-import re, itertools
+import re, itertools, collections
 from fractions import Fraction
 from . import mir
 from .cfg import CFG
@@ -171,6 +171,7 @@ class Engine:
         self.closure_index = None
         self.fresh = itertools.count()
         # fids kept uninterpreted at call sites (their own bodies are analysed separately: C08 interp lemma)
+        self.all_paths = set()       # fids analysed over every path (Err exits included): validators
         self.no_inline = {'utils::interp1d', 'utils::interp3d'}
         # tolerance helpers stay uninterpreted predicates (their bodies are checked in C09-0)
         for b in prog.bodies:
@@ -244,28 +245,50 @@ class Engine:
         return v
 
     def _find_const(self, name):
+        """const / promoted body for an operand name.  Names are matched exactly on their normalised form; shorter suffixes
+        are used only when they are unique in the crate (promoted[n] of different functions share their last segments)."""
         p = self.prog
         idx = p.__dict__.get('_const_index')
         if idx is None:
-            idx = {}
+            idx = collections.defaultdict(list)
             for b in p.bodies:
                 if b.kind != 'fn':
-                    idx.setdefault(b.fid, b)
-                    idx.setdefault(b.path, b)
-                    last = b.fid.split('::')
-                    idx.setdefault('::'.join(last[-2:]), b)
-                    if 'promoted[' not in b.fid:
-                        idx.setdefault(last[-1], b)
+                    segs = b.fid.split('::')
+                    for k in {b.fid, b.path, '::'.join(segs[-3:]), '::'.join(segs[-2:])} | ({segs[-1]} if 'promoted[' not in b.fid else set()):
+                        idx[k].append(b)
             p.__dict__['_const_index'] = idx
-        if name in idx:
-            return idx[name]
+
+        def uniq(k):
+            c = idx.get(k) or []
+            return c[0] if len(c) == 1 else None
+        hit = uniq(name)
+        if hit is not None:
+            return hit
+        cands = []
+        if name.startswith('<'):
+            try:
+                e = mir.find_matching(name, 0)
+                inner = name[1:e - 1]
+                kpos = p._top_level_as(inner)
+                if kpos is not None:
+                    ty = re.sub(r'\s+', '', p.qual_type(inner[:kpos]))
+                    if re.sub(r'<.*', '', ty) in p.types:
+                        ty = re.sub(r'<.*', '', ty)
+                    tr = strip_generics(inner[kpos + 4:]).split('::')[-1]
+                    rest = strip_generics(name[e:])
+                    cands.append('<%s as %s>%s' % (ty, tr, rest if rest.startswith('::') else '::' + rest))
+                    cands.append('%s%s' % (ty, rest if rest.startswith('::') else '::' + rest))
+            except ValueError:
+                pass
         n2 = strip_generics(name)
         segs = [x for x in n2.split('::') if x]
-        for k in (n2, '::'.join(segs[-3:]), '::'.join(segs[-2:])):
-            if k in idx:
-                return idx[k]
-        if segs and 'promoted[' not in segs[-1] and segs[-1] in idx:
-            return idx[segs[-1]]
+        cands += [n2, '::'.join(segs[-3:]), '::'.join(segs[-2:])]
+        if segs and 'promoted[' not in segs[-1]:
+            cands.append(segs[-1])
+        for k in cands:
+            hit = uniq(k)
+            if hit is not None:
+                return hit
         return None
 
     def closure_body(self, cid):
@@ -287,6 +310,10 @@ class Analysis:
         self.prog = engine.prog
         self.body = body
         self.cfg = CFG(body)
+        if body.fid in engine.all_paths:
+            # follow every non-cleanup path, not only those that can still reach an Ok exit
+            self.cfg.ok_region = set(self.cfg.reach)
+            self.cfg.err_blocks = set()
         self.names = {}
         for k, v in body.debug.items():
             m = re.fullmatch(r'_(\d+)', v)
